@@ -123,6 +123,84 @@ def native_stress(chk, binary, rounds):
     chk.extra["native_stress_scenarios"] = traces
 
 
+def in_situ(chk, seed, rounds):
+    """(c) The semaphore in its real role: with a low RLIMIT_NOFILE and far more hashing threads than
+    descriptors, `group` must finish, must not hit EMFILE, and the number of simultaneously open files of
+    the scanned tree (from the interposer's open/close events) must stay within the permit count."""
+    import resource
+    from .. import gm, reports, shimlog, tree
+    build.build_rel()
+    build.build_shim()
+    scratch = common.Scratch("C19situ")
+    try:
+        for k in range(rounds):
+            r = common.rng_for(seed, "C19situ", k)
+            d = scratch.case_dir("ext4")
+            troot = os.path.join(d, "t")
+            entries = [{"t": "d", "p": "r0"}]
+            nfiles = 0
+            for c in range(60):
+                L = r.choice([5000, 20000, 70000])
+                for m in range(r.randrange(2, 6)):
+                    entries.append({"t": "f", "p": "r0/c%d_%d" % (c, m), "fam": 1000 + c, "len": L, "flip": [], "mtime": c})
+                    nfiles += 1
+            tree.materialise({"entries": entries, "roots": ["r0"]}, troot)
+            limit = r.choice([96, 128, 200])
+            permits = max(limit - 5, 64)
+            o = {"hash_fn": "metro", "kind": r.choice(["ssd", "unknown"]), "threads": ["default:%d,%d" % (r.choice([128, 256]), r.choice([64, 256])),
+                                                                                    "main:8"]}
+            log = os.path.join(d, "shim.log")
+            # every read of a tree file is delayed so that as many hashing tasks as the pools allow hold a file open
+            env = gm.env_for(o, os.path.join(d, "home"), shimlog.shim_env(log, [troot], shimlog.plan(shimlog.rule("read", b"", 0, "delay:15000"))))
+            argv = [common.fclones_bin()] + [a.decode() for a in gm.group_argv(o, ["r0"], "json")]
+
+            def lower():
+                resource.setrlimit(resource.RLIMIT_NOFILE, (limit, limit))
+            p = subprocess.Popen(argv, env=env, cwd=troot, stdin=subprocess.DEVNULL, stdout=subprocess.PIPE, stderr=subprocess.PIPE,
+                                 preexec_fn=lower)
+            try:
+                out, err = p.communicate(timeout=180)
+            except subprocess.TimeoutExpired:
+                hung = quiescent(p.pid)
+                p.kill()
+                p.communicate()
+                if hung:
+                    chk.violation("C19:in-situ:hang", "group hung with RLIMIT_NOFILE=%d and %s" % (limit, o["threads"]), {"argv": argv})
+                else:
+                    chk.note_inconclusive("in-situ watchdog fired, process not quiescent")
+                continue
+            errt = err.decode("utf-8", "replace")
+            ev, fired, junk = shimlog.parse(log)
+            cur = peak = 0
+            for e in ev:
+                if e.op == "open" and e.ret >= 0:
+                    cur += 1
+                    peak = max(peak, cur)
+                elif e.op == "close" and e.ret == 0:
+                    cur -= 1
+            w = {"argv": argv, "rlimit": limit, "permits": permits, "peak_open_tree_files": peak, "files": nfiles, "rc": p.returncode,
+                 "stderr": errt[-1500:]}
+            if p.returncode != 0 or "Too many open files" in errt or "os error 24" in errt:
+                chk.violation("C19:in-situ:too-many-open-files", "group ran out of file descriptors (limit %d, peak %d)" % (limit, peak), w)
+                continue
+            if peak > permits:
+                chk.violation("C19:in-situ:open-file-budget-exceeded", "%d files of the tree were open at once, budget %d" % (peak, permits), w)
+                continue
+            try:
+                rep = reports.parse_json(out)
+            except Exception as e:
+                chk.violation("C19:in-situ:report", str(e), w)
+                continue
+            if sum(len(g["files"]) for g in rep.groups) != nfiles:
+                chk.violation("C19:in-situ:files-dropped", "only %d of %d duplicate files were reported" % (sum(len(g["files"]) for g in rep.groups), nfiles), w)
+                continue
+            chk.ok(("situ", limit, tuple(o["threads"]), peak), {"in_situ": w} if k == 0 else None)
+            chk.extra["in_situ_peak_open_files"] = max(chk.extra.get("in_situ_peak_open_files", 0), peak)
+            chk.count("in_situ_runs")
+    finally:
+        scratch.cleanup()
+
+
 def main(tier, seed, cases=None):
     chk = common.Check("C19", "exploration", tier, seed, RULE,
                        ["Miri's scheduler and std's Mutex/Condvar model", "exploration, not exhaustion, of interleavings",
@@ -181,6 +259,7 @@ def main(tier, seed, cases=None):
     binary = build_native()
     if binary:
         native_stress(chk, binary, 3 if tier == "quick" else 40)
+    in_situ(chk, seed, 3 if tier == "quick" else 30)
     return chk.finish()
 
 
